@@ -14,6 +14,9 @@
 (*         credential whose gid slice is shared with the caller: before and  *)
 (*         after images); through HandleCall: effective ids and the probe    *)
 (*         objects on which ACCESS granted READ                              *)
+(*  "c09s" / "c10s"  sessions on one connection through the real connection   *)
+(*         loop: policy replaced between requests (C09), credentials changing  *)
+(*         between requests (C10)                                              *)
 (*  "c12"  object mode/kind/owner as reported in the ACCESS replies, caller, *)
 (*         read-only flag and the 64 granted values (one per request mask)   *)
 (*                                                                         *)
@@ -68,6 +71,32 @@ Bad09(mv) ==
 Drift09(mv) ==
   If(Cur.exp.host # HostOf(mv) \/ Cur.exp.admit # AdmitOf(mv), "c09: the vector does not carry the rule's verdict")
 
+(* C09 sessions ("c09s"): one connection through the real acceptLoop / connection loop; step 1's  *)
+(* policy is in force at connect time, each later step's policy is installed at run time before  *)
+(* the step's request is sent on the same connection.                                             *)
+LiOf(list) == [i \in 1..Len(list) |-> [kind |-> list[i].kind, a |-> list[i].a, len |-> list[i].len]]
+StepBad(st, av) ==
+     If(av = "no" /\ st.rpc # "DENIED",
+        "a request on an open connection that the policy in force rejects was not answered MSG_DENIED")
+  \cup If(st.rpc = "DENIED" /\ (st.dispatched \/ st.backend > 0 \/ st.hdelta # 0),
+          "a rejected request reached a procedure handler or the backend")
+  \cup If(av = "no" /\ st.rpc # "DENIED" /\ (st.dispatched \/ st.backend > 0),
+          "a request on an open connection that the policy in force rejects reached a procedure handler or the backend")
+  \cup If(av = "yes" /\ st.rpc # "ACCEPTED", "an admissible request on an open connection was not processed")
+Bad09s ==
+  LET hv0 == HostVerdict(Cl09, LiOf(Cur.steps[1].list))
+  IN   If(~Agrees(hv0, ~Cur.refused), "acceptLoop accepts or refuses a connection against the membership rule")
+    \cup UNION {IF Cur.steps[k].sent
+                  THEN StepBad(Cur.steps[k], AdmitVerdict(Cl09, Cur.port, LiOf(Cur.steps[k].list), Cur.steps[k].secure))
+                  ELSE {} : k \in 1..Len(Cur.steps)}
+Drift09s ==
+     If(Cur.exp_conn # HostVerdict(Cl09, LiOf(Cur.steps[1].list))
+          \/ \E k \in 1..Len(Cur.steps) :
+                Cur.steps[k].exp # AdmitVerdict(Cl09, Cur.port, LiOf(Cur.steps[k].list), Cur.steps[k].secure),
+        "c09s: the session does not carry the rule's verdicts")
+  \cup If(~Cur.refused /\ \E k \in 1..Len(Cur.steps) : ~Cur.steps[k].sent /\ \A j \in 1..(k - 1) : Cur.steps[j].rpc # "CLOSED",
+          "c09s: a step of an open session was not driven")
+
 -----------------------------------------------------------------------------
 (* C10 *)
 \* mode classes a mode string may act as: its lower-case reading; a mixed-case string that the
@@ -120,6 +149,29 @@ Drift10 ==
            \/ Cur.lower # Lower(Cur.mode),
          "c10: the vector does not carry the rule's verdict")
 
+(* C10 sessions ("c10s"): requests with different credentials on one connection through the      *)
+(* connection loop; per request the reply status and the probe objects on which ACCESS granted   *)
+(* READ.  Each request must be served under its own squashed credential.                          *)
+StepExplained(st, v) ==
+  /\ Agrees(v.allow, st.allowed)
+  /\ st.allowed =>
+       LET who == [uid |-> v.uid, gid |-> v.gid, aux |-> IF v.sys THEN v.aux ELSE <<>>]
+       IN  Rng(st.own) = OwnSet(who) /\ (v.auxfree \/ Rng(st.grp) = GrpSet(who))
+Bad10s ==
+  LET mcs == ModeClasses(Cur.mode, Cur.cfg_ok)
+      StepCred(st) == [flavor |-> st.cred.flavor, body |-> st.cred.body, uid |-> st.cred.uid, gid |-> st.cred.gid, aux |-> st.cred.aux]
+      badAllow == \E k \in 1..Len(Cur.steps) : \A mc \in mcs : ~Agrees(AuthVerdict(mc, StepCred(Cur.steps[k])).allow, Cur.steps[k].allowed)
+      badWho   == \E k \in 1..Len(Cur.steps) : \A mc \in mcs : ~StepExplained(Cur.steps[k], AuthVerdict(mc, StepCred(Cur.steps[k])))
+  IN   If(badAllow, "a request on a connection is admitted or denied against its own credential")
+    \cup If(~badAllow /\ badWho, "a request on a connection is served under an identity other than its own squashed credential")
+Drift10s ==
+  If(\E k \in 1..Len(Cur.steps) :
+        LET c == Cur.steps[k].cred
+            v == AuthVerdict(ModeClass(Lower(Cur.mode)), [flavor |-> c.flavor, body |-> c.body, uid |-> c.uid, gid |-> c.gid, aux |-> c.aux])
+        IN  Cur.steps[k].exp.allow # v.allow \/ Cur.steps[k].exp.uid # v.uid \/ Cur.steps[k].exp.gid # v.gid \/ Cur.steps[k].exp.aux # v.aux
+              \/ Cur.steps[k].rpc = "NONE",
+     "c10s: the session does not carry the rule's verdicts or a step was not driven")
+
 -----------------------------------------------------------------------------
 (* C12 *)
 Bad12 ==
@@ -159,7 +211,8 @@ Bump(k) == [stats EXCEPT ![k] = @ + 1]
 Init == /\ l = 1 /\ bad = {} /\ dev = {} /\ drift = {}
         /\ stats = [lines |-> 0, c09 |-> 0, c09_yes |-> 0, c09_no |-> 0, c09_either |-> 0, c09_calls |-> 0, c09_denied |-> 0,
                     c09_conn |-> 0, c10 |-> 0, c10_denied |-> 0, c10_changed |-> 0, c10_probed |-> 0,
-                    c12 |-> 0, c12_decisions |-> 0, other |-> 0]
+                    c12 |-> 0, c12_decisions |-> 0, other |-> 0,
+                    c09s |-> 0, c09s_steps |-> 0, c09s_denied |-> 0, c10s |-> 0, c10s_steps |-> 0]
 
 Step09 ==
   /\ Cur.ev = "c09"
@@ -191,15 +244,29 @@ Step12 ==
   /\ drift' = drift \cup Tag(Drift12)
   /\ stats' = [stats EXCEPT !.c12 = @ + 1, !.c12_decisions = @ + Len(Cur.granted)]
 
+Step09s ==
+  /\ Cur.ev = "c09s"
+  /\ bad' = bad \cup Tag(Bad09s)
+  /\ drift' = drift \cup Tag(Drift09s)
+  /\ stats' = [stats EXCEPT !.c09s = @ + 1,
+                            !.c09s_steps = @ + Cardinality({k \in 1..Len(Cur.steps) : Cur.steps[k].sent}),
+                            !.c09s_denied = @ + Cardinality({k \in 1..Len(Cur.steps) : Cur.steps[k].rpc = "DENIED"})]
+
+Step10s ==
+  /\ Cur.ev = "c10s"
+  /\ bad' = bad \cup Tag(Bad10s)
+  /\ drift' = drift \cup Tag(Drift10s)
+  /\ stats' = [stats EXCEPT !.c10s = @ + 1, !.c10s_steps = @ + Len(Cur.steps)]
+
 StepOther ==
-  /\ Cur.ev \notin {"c09", "c10", "c12"}
+  /\ Cur.ev \notin {"c09", "c10", "c12", "c09s", "c10s"}
   /\ UNCHANGED <<bad, drift>>
   /\ stats' = Bump("other")
 
 Consume == /\ l <= N
            /\ l' = l + 1
            /\ dev' = dev
-           /\ (Step09 \/ Step10 \/ Step12 \/ StepOther)
+           /\ (Step09 \/ Step10 \/ Step12 \/ Step09s \/ Step10s \/ StepOther)
 
 Finish == /\ l = N + 1
           /\ l' = N + 2
